@@ -149,7 +149,7 @@ def coq_setup(qk):
         + "; ".join(f"({coq_str(u)}, {cud(s, rf)})" for u, s, rf in c["redefs"]) + "] false)"
         for n, c in CTX.items()) + "])"
     probes = "[" + "; ".join(coq_probe(p) for p in PROBES) + "]"
-    return (HEADER0 + f"Definition QKv := QK {coq_bool(qk['F6'])} {coq_bool(qk['F7'])} {coq_bool(qk['F8'])} {coq_bool(qk['F110'])}.\n"
+    return (HEADER0 + f"Definition QKv := QK {coq_bool(qk['F6'])} {coq_bool(qk['F7'])} {coq_bool(qk['F8'])} {coq_bool(qk['F110'])} {coq_bool(qk['F5'])}.\n"
             f"Definition SUv := SU QKv ({cfg(False)}, {cfg(True)}) ({table(False)}, {table(True)}) {objs} {probes}.\n")
 
 
@@ -815,6 +815,7 @@ W6 = [("en", ("rd",), ())]
 W23 = [("en", ("rb",), ()), ("dis", None), ("en", ("rb",), ())]
 W7 = [("with", ("rb",), ()), ("probe", ("base", U(yard=1))), ("exit",), ("probe", ("base", U(yard=1)))]
 W8 = [("en", ("rc",), ())]
+W5 = [("en", ("rc",), ()), ("en", ("rs",), kwt(k=3)), ("en", ("rs",), ())]
 W23b = [("en", ("rb",), ()), ("def", "smoot"), ("dis", None), ("en", ("rb",), ()), ("with", ("ra",), ()), ("exit",)]
 
 
@@ -839,6 +840,19 @@ def detect_quirks(ck):
     qk["F7"] = after == inside and after != pristine()["base"]["base:yard"]
     steps, f8 = run_sequence(W8)
     qk["F8"] = steps[-1][1]["ctx"]["rc"][0] != [({"[V]": F(1)}, {"[M]": F(1)}), ({"[L]": F(1)}, {"[T]": F(1)}), ({"[T]": F(1)}, {"[M]": F(1)})]
+    # F5 (C11's finding, repaired by 9fd2d28): whose parameters does a context enabled without kwargs inherit?
+    w = World(False)
+    for op in W5:
+        w.do(0, op)
+    a5 = w.ask(0, PROBES2[0])
+    w.close()
+    if a5 == ("Q", F(9)):
+        qk["F5"] = False          # innermost enclosing context (k=3)
+    elif a5 == ("Q", F(6)):
+        qk["F5"] = True           # the context owning the oldest context's first rule (k=2)
+    else:
+        notes["F5"] = f"unexpected answer {a5} to the parameter-inheritance witness"
+        qk["F5"] = False
     _, f23 = run_sequence(W23b)
     found = []
     for ops, fs in ((W6, f6), (W7, f7), (W8, f8), (W23b, f23)):
